@@ -10,7 +10,7 @@ Digit-exact rendering is value-level and NOT decided.  Decided structural clause
       items are an error
 """
 from . import kwalk, chartab, units, evalmarks as em, c01, c06, prov
-from .facts import callee_name
+from .facts import callee_name, AnchorMissing
 
 EXPLANATION = (
     "Static analysis of MIR: decision tables of parse_format_conv_type (over all interval classes of the "
@@ -407,6 +407,100 @@ def rule_r6(F, rep):
                           % (v, sorted(map(str, res)), exp_m), fn.loc)
 
 
+def rule_r7(F, rep, rid="C19.R7"):
+    """every `*` takes exactly one item of the argument array"""
+    R = rep.rule(rid, "a `*` width and a `*` precision each take exactly one item from the argument array, whatever the conversion "
+                 "does with the value (printf consumes the int argument of `%.*s` / `%.*c` too): in step 1 of array formatting "
+                 "the cursor advances once per `*`, for conversions that use a precision and for those that ignore it alike")
+    FPART = FMT + "FormatPart"
+    FCODE = FMT + "FormatCode"
+    FWIDTH = FMT + "FieldWidth"
+    s1 = F.fn("<%s>::do_std_format_codes_array_1" % E)
+    rep.fn(s1)
+    body = s1.body
+    names = body.local_names()
+    cursor = [l for l, nm in names.items() if nm == "array_i"]
+    if not cursor:
+        raise AnchorMissing("do_std_format_codes_array_1: local `array_i`")
+
+    def which_field(place):
+        for pr in place["p"]:
+            if pr != "*" and pr["k"] == "f" and pr.get("n") in ("fw", "prec"):
+                return pr["n"]
+        return None
+
+    n = 0
+    for fw in ("None", "Inline", "External"):
+        for prec in ("None", "Inline", "External"):
+            for up in (0, 1):
+                key = {"fw": fw, "prec": prec}
+
+                def after(w, bb, idx, st, env, key=key):
+                    rv = st["rv"]
+                    if rv["k"] != "discr":
+                        return
+                    adt = rv.get("adt")
+                    pl = rv["p"]
+                    if adt == FPART:
+                        env[w.norm(env, pl)] = ("var", FPART, "Code")
+                        env[w.norm(env, st["p"])] = w.discr_of_variant(FPART, "Code")
+                    elif adt == OPTION:
+                        f = which_field(pl)
+                        if f:
+                            v = "None" if key[f] == "None" else "Some"
+                            env[w.norm(env, pl)] = ("var", OPTION, v)
+                            env[w.norm(env, st["p"])] = w.discr_of_variant(OPTION, v)
+                    elif adt == FWIDTH:
+                        f = which_field(pl)
+                        if f and key[f] != "None":
+                            env[w.norm(env, pl)] = ("var", FWIDTH, key[f])
+                            env[w.norm(env, st["p"])] = w.discr_of_variant(FWIDTH, key[f])
+
+                def hook(w, bb, t, env, args, up=up):
+                    nm = callee_name(t) or ""
+                    if nm == "<%s>::uses_prec" % FCODE:
+                        return up
+                    if nm.endswith("core::ops::try_trait::FromResidual>::from_residual"):
+                        return ("var", "core::result::Result", "Err")
+                    return None
+
+                def on_stmt(w, bb, idx, st, env):
+                    if st["k"] == "assign" and st["rv"]["k"] == "binop" and st["rv"]["op"] in ("Add", "AddWithOverflow", "AddUnchecked"):
+                        a = st["rv"]["a"]
+                        if a.get("k") in ("move", "copy") and a.get("l") in cursor and st["rv"]["b"].get("k") == "const":
+                            return ("advance", bb)
+                    return None
+                m = em.Marker(F, body, 1, False)
+
+                def both(w, bb, idx, st, env, m=m, on_stmt=on_stmt):
+                    r = on_stmt(w, bb, idx, st, env)
+                    return r if r is not None else m.on_stmt(w, bb, idx, st, env)
+                w = kwalk.Walker(F, body, on_term=m.on_term, on_stmt=both, after_stmt=after, call_result=hook, ordered_marks=True,
+                                 want_ret=True, dedupe_marks=False)
+                outs = w.run(0, {})
+                rep.states += w.states_explored
+                counts = set()
+                for o in outs:
+                    if o[0] != "return" or em.is_err_return(o):
+                        continue
+                    pushed = [mk[2] for mk in o[1] if mk[0] == "push" and mk[1] == "state_stack"]
+                    if "StdFormatCodesArray2" not in [x[0] if isinstance(x, tuple) else x for x in pushed]:
+                        continue          # literal part / end of the format
+                    counts.add(sum(1 for mk in o[1] if mk[0] == "advance"))
+                want = int(fw == "External") + int(prec == "External")
+                n += 1
+                ok = counts == {want}
+                rep.ob(R, "array|fw=%s|prec=%s|uses_prec=%d" % (fw, prec, up), ok,
+                       {"width": fw, "precision": prec, "conversion_uses_precision": up, "cursor_advances": sorted(counts), "stars": want})
+                if not ok:
+                    rep.violation(R, "format-array|star-items|fw=%s|prec=%s|uses_prec=%d" % (fw, prec, up),
+                                  "array formatting with width=%s precision=%s on a conversion that %s a precision advances the "
+                                  "argument cursor %s time(s) in step 1; the directive has %d `*`: the following directives read "
+                                  "shifted arguments and the count check reports the wrong thing"
+                                  % (fw, prec, "uses" if up else "ignores", sorted(counts), want), s1.loc)
+    rep.floor(R, n, 18, "width x precision x conversion combinations")
+
+
 def run(F, rep, tier):
     rule_r1(F, rep)
     units.rule_mix(F, rep, "C19.R2")
@@ -415,6 +509,7 @@ def run(F, rep, tier):
     rule_r4(F, rep)
     rule_r5(F, rep)
     rule_r6(F, rep)
+    rule_r7(F, rep)
     from . import casts
     casts.rule(F, rep, "C06.R4")
     rep.assume("digit-exact rendering (rounding, exponent form, %g) is value-level and not decided")
